@@ -45,12 +45,15 @@ CLAIM = dict(
          'history does not depend on the world, in particular not on what the default dictionaries held). '
          'rand_custom (no seed parameter, default f=np.random.randn) is a named exemption in the Coq data: it is covered with f '
          'supplied by the user only. Non-vacuity Examples: accepted / rejected skeletons (global draw two levels down, read '
-         'before reset, seed=None) and concrete two-world runs showing equal histories for the accepted and different ones '
+         'before reset, seed=None, np.empty storage read before it is written = event Uninit) and concrete two-world runs showing equal histories for the accepted and different ones '
          'for the rejected skeletons.',
     note='What is proved is a property of the effect skeleton; that the skeleton describes the Python source is trusted '
          '(ast translator, rules listed in the evidence) and validated numerically on every run by the dynamic harness '
          '(bitwise comparison under >= 4 global generator states x call histories, generator-object mode, default '
-         'dictionaries, pollution of the default dictionaries) -- that part is validation, not proof. Trusted: NumPy '
+         'dictionaries, pollution of the default dictionaries, re-import under different global states, fresh / first / second / '
+         'after-other-inputs call histories, degenerate shapes, allocator poisoning for np.empty storage) -- that part is '
+         'validation, not proof. For np.empty the translator only checks that a store is executed on every path; that the '
+         'stores cover every element is validated by the allocator-poisoning stream only. Trusted: NumPy '
          'contract default_rng(int) deterministic / a Generator draws from its own state only; user callbacks do not draw '
          'from global generators nor store new keys in info. Not modelled: iteration order of dictionaries, implicit '
          'exceptions outside try blocks, info["t"] (timing, excluded from "result"), out-of-fuel runs (excluded explicitly: '
